@@ -112,6 +112,7 @@ type vPlan struct {
 	Sends    []vSend           `json:"sends"`
 	Kinds    map[string]vHKind `json:"kinds"` // "client/ordinal" or "client/*"
 	Back     bool              `json:"back"`  // backpressure count scenario
+	Seq      bool              `json:"seq"`   // sequential: every action waits for the visible effect of the previous one
 }
 
 func (p *vPlan) kind(client, ord int) vHKind {
@@ -143,11 +144,11 @@ func vC09Corpus() []vPlan {
 	}
 	ps = append(ps, p)
 	// 2: idle expiry (first notification), a new association, then the old handler's Close (second notification)
-	p = vPlan{Name: "idle-then-late-close", NClients: 1, Kinds: map[string]vHKind{"0/0": {Mode: vHIdle, Buf: 9000}}}
+	p = vPlan{Name: "idle-then-late-close", Seq: true, NClients: 1, Kinds: map[string]vHKind{"0/0": {Mode: vHIdle, Buf: 9000}}}
 	p.Sends = []vSend{mk(0, 100), {Client: 0, Size: 100, Pre: vPreWaitEnded, Expect: 1}, {Client: 0, Size: 100, Pre: vPreRelease}, mk(0, 100)}
 	ps = append(ps, p)
 	// 3: read one and return, then a later datagram: served by a fresh association
-	p = vPlan{Name: "read-once-then-fresh", NClients: 2, Kinds: map[string]vHKind{"0/*": {Mode: vHReadN, N: 1, Buf: 9000}}}
+	p = vPlan{Name: "read-once-then-fresh", Seq: true, NClients: 2, Kinds: map[string]vHKind{"0/*": {Mode: vHReadN, N: 1, Buf: 9000}}}
 	p.Sends = []vSend{mk(0, 100), mk(1, 200), {Client: 0, Size: 300, Pre: vPreWaitEnded, Expect: 1}, mk(1, 100), {Client: 0, Size: 9000, Pre: vPreWaitEnded, Expect: 1}}
 	ps = append(ps, p)
 	// 4: four clients interleaved, jumbo datagrams read through a small buffer
@@ -233,6 +234,44 @@ func vC09Random(r *vRng, idx int) vPlan {
 	return p
 }
 
+// sequential plans: every handler reads and replies, the harness waits for each reply
+func vC09RandomSeq(r *vRng, idx int) vPlan {
+	p := vPlan{Name: fmt.Sprintf("sequential-%d", idx), Seq: true, NClients: 1 + r.Intn(3), Kinds: map[string]vHKind{}}
+	bufs := []int{9000, 9000, 4096, 1024, 512, 100}
+	small := map[int]bool{}
+	for c := 0; c < p.NClients; c++ {
+		var k vHKind
+		switch r.Intn(5) {
+		case 0, 1:
+			k = vHKind{Mode: vHEcho, Buf: bufs[r.Intn(len(bufs))], Deadline: r.Intn(3) == 0}
+		case 2, 3:
+			k = vHKind{Mode: vHReadN, N: 1 + r.Intn(3), Buf: bufs[r.Intn(len(bufs))]}
+		case 4:
+			p.Kinds[fmt.Sprintf("%d/0", c)] = vHKind{Mode: vHIdle, Buf: 9000}
+			k = vHKind{Mode: vHEcho, Buf: 9000}
+		}
+		p.Kinds[fmt.Sprintf("%d/*", c)] = k
+		small[c] = k.Buf > 0 && k.Buf < 512
+	}
+	total := 3 + r.Intn(22)
+	for i := 0; i < total; i++ {
+		c := r.Intn(p.NClients)
+		sz := vC09Sizes[r.Intn(len(vC09Sizes))]
+		if r.Intn(3) == 0 {
+			sz = vC09Hdr + r.Intn(9000-vC09Hdr+1)
+		}
+		if small[c] && sz > 1500 {
+			sz = vC09Hdr + r.Intn(1400)
+		}
+		s := vSend{Client: c, Size: sz}
+		if r.Intn(10) == 0 {
+			s.Pre = vPreRelease // lets an idled-out handler return (its Close notifies a second time)
+		}
+		p.Sends = append(p.Sends, s)
+	}
+	return p
+}
+
 // ---------------------------------------------------------------- event log
 
 type vC09Read struct {
@@ -267,11 +306,12 @@ type vC09Log struct {
 	byClient map[int][]*vC09Assoc
 	fails    []vC09Fail
 	readBy   map[int]int // datagram id -> association ordinal (first fresh read)
+	replied  map[int]bool
 	readFrom atomic.Int64
 }
 
 func newVC09Log() *vC09Log {
-	return &vC09Log{arrPos: map[int]int{}, arrCl: map[int]int{}, arrSize: map[int]int{}, byClient: map[int][]*vC09Assoc{}, readBy: map[int]int{}}
+	return &vC09Log{arrPos: map[int]int{}, arrCl: map[int]int{}, arrSize: map[int]int{}, byClient: map[int][]*vC09Assoc{}, readBy: map[int]int{}, replied: map[int]bool{}}
 }
 
 func (l *vC09Log) add(s string) int {
@@ -369,6 +409,7 @@ func (p *vC09PC) WriteTo(b []byte, addr net.Addr) (int, error) {
 	dst := p.clientOf(addr)
 	if ok && h.kind == 1 {
 		l.add(fmt.Sprintf("OWrite %d %d %d", h.assoc, h.id, dst))
+		l.replied[h.id] = true
 		if dst != h.client {
 			l.fail("C09:reply:wrong-address", fmt.Sprintf("reply to datagram %d of client %d was sent to %v (client %d)", h.id, h.client, addr, dst))
 		}
@@ -629,8 +670,20 @@ func vC09Exec(plan *vPlan) vC09Result {
 	}
 	id := 0
 	blocked := false
+	seqBroken := false
 	for _, s := range plan.Sends {
 		endedOrd := -1
+		if plan.Seq {
+			// the client's newest association has returned or seen EOF: let Close and the loop finish
+			l.mu.Lock()
+			as := l.byClient[s.Client]
+			wait := len(as) > 0 && as[len(as)-1].endPos >= 0
+			l.mu.Unlock()
+			if wait {
+				l.waitQuiet(settle, time.Second)
+				time.Sleep(3 * settle)
+			}
+		}
 		switch s.Pre {
 		case vPreWaitEnded:
 			endedOrd = waitEnded(s.Client)
@@ -660,6 +713,24 @@ func vC09Exec(plan *vPlan) vC09Result {
 		}
 		if blocked {
 			break
+		}
+		if plan.Seq && !seqBroken {
+			// wait for the reply to this datagram (every handler of a sequential plan reads and replies)
+			end := time.Now().Add(2 * time.Second)
+			for {
+				l.mu.Lock()
+				ok := l.replied[id]
+				l.mu.Unlock()
+				if ok {
+					break
+				}
+				if time.Now().After(end) {
+					seqBroken = true
+					break
+				}
+				time.Sleep(200 * time.Microsecond)
+			}
+			l.waitQuiet(settle/2, 200*time.Millisecond)
 		}
 		if s.Expect == 1 && endedOrd >= 0 {
 			// a datagram sent after the client's association has ended must be served by a newer one
@@ -742,6 +813,9 @@ func vC09Exec(plan *vPlan) vC09Result {
 		return res
 	}
 	res.Coq = "CTrace [" + strings.Join(l.coq, "; ") + "]"
+	if plan.Seq && !seqBroken && !blocked {
+		res.Coq = "CSeq [" + strings.Join(l.coq, "; ") + "]"
+	}
 	// non-trivial: at least two datagrams from one address with a handler event (EOF, return, new association) between them
 	nt := false
 	for _, as := range l.byClient {
@@ -758,6 +832,9 @@ func vC09Exec(plan *vPlan) vC09Result {
 	mode := "scripted"
 	if plan.Real {
 		mode = "loopback"
+	}
+	if strings.HasPrefix(res.Coq, "CSeq") {
+		mode = "sequential"
 	}
 	nas := len(l.assocs)
 	if nas > 6 {
@@ -820,7 +897,11 @@ func vC09Plans(n int) []vPlan {
 	ps := vC09Corpus()
 	r := vNewRng(vSeed()*1000003 + 9)
 	for i := 0; i < n; i++ {
-		ps = append(ps, vC09Random(r, i))
+		if i%3 == 2 {
+			ps = append(ps, vC09RandomSeq(r, i))
+		} else {
+			ps = append(ps, vC09Random(r, i))
+		}
 	}
 	return ps
 }
